@@ -991,6 +991,7 @@ func (c *compiler) evalCallExpression(node *ast.CallExpression) (interface{}, er
 		}
 	}
 
+	stmt := c.curStmt
 	res, err := safeCall(rv, args)
 	if err != nil {
 		return nil, fmt.Errorf("could not call %s function: %w", node.Function, err)
@@ -999,6 +1000,11 @@ func (c *compiler) evalCallExpression(node *ast.CallExpression) (interface{}, er
 		if e, ok := res[len(res)-1].Interface().(error); ok && !isNilResult(res[len(res)-1]) {
 			return nil, fmt.Errorf("could not call %s function: %w", node.Function, e)
 		}
+	}
+	// the call succeeded: a failure of its block that the helper chose to ignore
+	// (BlockWith recorded the failing statement) is not the current statement's
+	c.curStmt = stmt
+	if len(res) > 0 {
 		if node.ChainCallee != nil {
 			octx, err := c.scope()
 			if err != nil {
